@@ -373,6 +373,38 @@ class _Flip(ast.NodeTransformer):
         return node
 
 
+class _DeMorgan(ast.NodeTransformer):
+    """Tests of if/while statements re-spelt: `a and b` -> `not (not a or not b)`, `a or b` -> `not (not a and not b)`,
+    `a == b` -> `not a != b`, `a != b` -> `not a == b`, `x in y` -> `not x not in y`."""
+    _FLIP = {ast.Eq: ast.NotEq, ast.NotEq: ast.Eq, ast.In: ast.NotIn, ast.NotIn: ast.In, ast.Is: ast.IsNot, ast.IsNot: ast.Is}
+
+    def __init__(self):
+        self.n = 0
+
+    def respell(self, t):
+        if isinstance(t, ast.BoolOp):
+            self.n += 1
+            other = ast.Or() if isinstance(t.op, ast.And) else ast.And()
+            return ast.UnaryOp(op=ast.Not(), operand=ast.BoolOp(op=other, values=[ast.UnaryOp(op=ast.Not(), operand=self.respell_leaf(v)) for v in t.values]))
+        return self.respell_leaf(t)
+
+    def respell_leaf(self, t):
+        if isinstance(t, ast.Compare) and len(t.ops) == 1 and type(t.ops[0]) in self._FLIP:
+            self.n += 1
+            return ast.UnaryOp(op=ast.Not(), operand=ast.Compare(left=t.left, ops=[self._FLIP[type(t.ops[0])]()], comparators=t.comparators))
+        return t
+
+    def visit_If(self, node):
+        self.generic_visit(node)
+        node.test = self.respell(node.test)
+        return node
+
+    def visit_While(self, node):
+        self.generic_visit(node)
+        node.test = self.respell(node.test)
+        return node
+
+
 def rewrite_function(program: Program, qualname: str, kind: str) -> Program | None:
     fi = program.functions.get(qualname)
     if fi is None:
@@ -395,6 +427,11 @@ def rewrite_function(program: Program, qualname: str, kind: str) -> Program | No
         h = _Hoist()
         h.generic_visit(target)
         if h.n == 0:
+            return None
+    elif kind == "demorgan":
+        d = _DeMorgan()
+        d.visit(target)
+        if d.n == 0:
             return None
     elif kind == "flip":
         f = _Flip()
@@ -540,7 +577,7 @@ def run(ctx: Ctx) -> None:
     targets += sorted(q for q in ctx.analysed_functions if q not in targets and q in ctx.p.functions)     # everything the check looked at
     jobs.append(("rewrite", prop, "<whole tree>", "reformat"))
     for q in targets:
-        for kind in ("rename", "aug", "pass", "hoist", "flip"):
+        for kind in ("rename", "aug", "pass", "hoist", "flip", "demorgan"):
             jobs.append(("rewrite", prop, q, kind))
     _BASE = ctx.p
     nproc = max(1, min(16, os.cpu_count() or 1, len(jobs)))
